@@ -52,6 +52,7 @@ func init() {
 		}
 		return hash.NewSHA3_256()
 	}
+	pops := make([]crypto.Signature, G) // first use of the package-level PoP hasher: concurrent
 	sigs := make([][]crypto.Signature, len(algs))
 	for i := range sigs {
 		sigs[i] = make([]crypto.Signature, G)
@@ -79,6 +80,16 @@ func init() {
 				if j == 0 {
 					sigs[k][g] = s
 				}
+				if algs[k] == crypto.BLSBLS12381 {
+					pop, err := crypto.BLSGeneratePOP(sks[k])
+					if err != nil {
+						mu.Lock()
+						bad = fmt.Sprintf("BLSGeneratePOP: %v", err)
+						mu.Unlock()
+						return
+					}
+					pops[g] = pop
+				}
 			}
 		}(g)
 	}
@@ -87,6 +98,11 @@ func init() {
 	if bad != "" {
 		fail("%s", bad)
 	}
+	for g := range pops {
+		if !bytes.Equal(pops[g], pops[0]) || len(pops[g]) == 0 {
+			fail("BLSGeneratePOP from goroutine %d differs: %x vs %x", g, pops[g], pops[0])
+		}
+	}
 	// phase B: the first Verify calls of the process, all at once, on the decoded key objects
 	start = make(chan struct{})
 	for g := 0; g < G; g++ {
@@ -94,6 +110,11 @@ func init() {
 		go func(g int) {
 			defer wg.Done()
 			<-start
+			if ok, err := crypto.BLSVerifyPOP(pks[len(algs)-1], pops[g]); !ok || err != nil {
+				mu.Lock()
+				bad = fmt.Sprintf("BLSVerifyPOP: %v %v", ok, err)
+				mu.Unlock()
+			}
 			for k := range algs {
 				for _, s := range sigs[k] {
 					if s == nil {
